@@ -158,131 +158,163 @@ func genValue(r *verifx.Rng, base float64) float64 {
 	}
 }
 
+type evSpec struct {
+	kind   byte // 'c' counter-only, 'v' values/histogram, 'p' single value with count, 'u' unique
+	top    tag
+	host   tag
+	count  float64 // as carried by the event: 0 = "take the number of values"
+	vals   []float64
+	hist   [][2]float64
+	value  float64
+	hashes []int64
+}
+
+type caseSpec struct {
+	key      data_model.Key
+	hasPct   bool
+	noSample bool // MetricMeta.NoSampleAgent: keepF is called directly with the row's SF
+	sf       float64
+	events   []evSpec
+	aggHost  tag
+}
+
 type caseCtx struct {
 	h      *verifx.H
-	r      *verifx.Rng
 	rng    *rand.Rand
 	item   *data_model.MultiItem
 	hasPct bool
 	kinds  map[string]bool
 }
 
-func (c *caseCtx) observe(top tag, host tag) (pick string) {
-	return ""
-}
-
-// applyEvent generates one event, applies it through the real API exactly as Shard.Apply* do, prints op and observation.
-func (c *caseCtx) applyEvent(base float64) {
-	r, h := c.r, c.h
-	top := tag{}
+func genEvent(r *verifx.Rng, base float64) evSpec {
+	e := evSpec{}
 	if r.Chance(2, 5) {
-		top = topPool[r.Intn(len(topPool))]
+		e.top = topPool[r.Intn(len(topPool))]
 	}
-	host := hostPool[r.Intn(len(hostPool))]
-	key := top
-	key.Normalize()
-	target := func(count float64) *data_model.MultiValue {
-		return c.item.MapStringTop(c.rng, 100, top, count)
-	}
-	pickOf := func(mv *data_model.MultiValue) string { return b2s(mv.Value.MaxCounterHostTag == host) }
-	kind := r.Pick(3, 5, 2, 2)
-	switch kind {
-	case 0: // counter-only event (Shard.ApplyCounter)
-		count := []float64{1, 1, 2, 3, 0.5, 5, 0}[r.Intn(7)]
-		c.kinds["c"] = true
-		h.Stat("ev.counter", 1)
-		var mv *data_model.MultiValue
-		if count > 0 {
-			mv = target(count)
-			mv.AddCounterHost(c.rng, count, host)
-		}
-		c.finishEvent(mv, key, fmt.Sprintf("ev c %s %s %s", tagStr(top), q(count), tagStr(host)), pickOf, "")
-	case 1: // value / histogram event (Shard.ApplyValues)
-		var vals []float64
-		var hist [][2]float64
+	e.host = hostPool[r.Intn(len(hostPool))]
+	switch r.Pick(3, 5, 2, 2) {
+	case 0:
+		e.kind = 'c'
+		e.count = []float64{1, 1, 2, 3, 0.5, 5, 0}[r.Intn(7)]
+	case 1:
+		e.kind = 'v'
 		nv := r.Pick(2, 4, 2, 1)
 		for i := 0; i < nv; i++ {
-			vals = append(vals, genValue(r, base))
+			e.vals = append(e.vals, genValue(r, base))
 		}
 		nh := r.Pick(5, 2, 1)
 		if nv == 0 && nh == 0 {
 			nh = 1
 		}
 		for i := 0; i < nh; i++ {
-			hist = append(hist, [2]float64{genValue(r, base), float64(r.Pick(1, 6, 3, 2))})
+			e.hist = append(e.hist, [2]float64{genValue(r, base), float64(r.Pick(1, 6, 3, 2))})
 		}
-		total := float64(len(vals))
-		for _, kv := range hist {
+		total := float64(len(e.vals))
+		for _, kv := range e.hist {
 			total += kv[1]
 		}
 		// count: 0 (= take total), total, or total times a dyadic factor (keeps count/total exact)
-		count := total * []float64{0, 0, 1, 2, 0.5, 3, 1.5}[r.Intn(7)]
-		opCount := count
-		if count == 0 {
-			count = total
-		}
-		c.kinds["v"] = true
-		if nh > 0 {
-			c.kinds["h"] = true
-			h.Stat("ev.histogram", 1)
-		} else {
-			h.Stat("ev.value", 1)
-		}
-		if opCount != 0 && opCount != total {
-			h.Stat("ev.value.rescaled", 1)
-		}
-		var mv *data_model.MultiValue
-		if count > 0 {
-			mv = target(count)
-			mv.ApplyValues(c.rng, hist, vals, count, total, host, agentCompression, c.hasPct)
-		}
-		vs := make([]string, len(vals))
-		for i, v := range vals {
-			vs[i] = q(v)
-		}
-		hs := make([]string, len(hist))
-		for i, kv := range hist {
-			hs[i] = q(kv[0]) + ":" + q(kv[1])
-		}
-		c.finishEvent(mv, key, fmt.Sprintf("ev v %s %s %s %s %s", tagStr(top), q(opCount), verifx.List(vs), verifx.List(hs), tagStr(host)), pickOf, b2s(c.hasPct))
-	case 2: // single value with count (Shard.AddValueCounterHost, built-in metrics)
-		value := genValue(r, base)
-		count := []float64{1, 1, 2, 0.5, 4}[r.Intn(5)]
-		c.kinds["v"] = true
-		h.Stat("ev.value1", 1)
-		mv := target(count)
-		if c.hasPct {
-			mv.AddValueCounterHostPercentile(c.rng, value, count, host, agentCompression)
-		} else {
-			mv.AddValueCounterHost(c.rng, value, count, host)
-		}
-		c.finishEvent(mv, key, fmt.Sprintf("ev p %s %s %s %s", tagStr(top), q(value), q(count), tagStr(host)), pickOf, b2s(c.hasPct))
-	case 3: // unique event (Shard.ApplyUnique)
+		e.count = total * []float64{0, 0, 1, 2, 0.5, 3, 1.5}[r.Intn(7)]
+	case 2:
+		e.kind = 'p'
+		e.value = genValue(r, base)
+		e.count = []float64{1, 1, 2, 0.5, 4}[r.Intn(5)]
+	case 3:
+		e.kind = 'u'
 		n := r.Range(1, 4)
-		var hashes []int64
-		var hs []string
 		for i := 0; i < n; i++ {
 			x := int64(r.Range(-3, 40))
 			if r.Chance(1, 3) {
 				x = int64(base)
 			}
-			hashes = append(hashes, x)
-			hs = append(hs, fmt.Sprintf("%s:%d", q(float64(x)), data_model.VerifC02Hash32(uint64(x))))
+			e.hashes = append(e.hashes, x)
 		}
-		total := float64(n)
-		count := total * []float64{0, 0, 1, 2, 0.5, 3}[r.Intn(6)]
-		opCount := count
+		e.count = float64(n) * []float64{0, 0, 1, 2, 0.5, 3}[r.Intn(6)]
+	}
+	return e
+}
+
+// applyEvent applies one event through the real API exactly as Shard.Apply* do (count defaulting, `count <= 0` guard,
+// MapStringTop, then the MultiValue method) and prints the op and the observation.
+func (c *caseCtx) applyEvent(e evSpec) {
+	h := c.h
+	top, host := e.top, e.host
+	key := top
+	key.Normalize()
+	target := func(count float64) *data_model.MultiValue {
+		return c.item.MapStringTop(c.rng, 100, top, count)
+	}
+	pickOf := func(mv *data_model.MultiValue) string { return b2s(mv.Value.MaxCounterHostTag == host) }
+	switch e.kind {
+	case 'c': // Shard.ApplyCounter
+		c.kinds["c"] = true
+		h.Stat("ev.counter", 1)
+		var mv *data_model.MultiValue
+		if e.count > 0 {
+			mv = target(e.count)
+			mv.AddCounterHost(c.rng, e.count, host)
+		}
+		c.finishEvent(mv, key, fmt.Sprintf("ev c %s %s %s", tagStr(top), q(e.count), tagStr(host)), pickOf, "")
+	case 'v': // Shard.ApplyValues
+		total := float64(len(e.vals))
+		for _, kv := range e.hist {
+			total += kv[1]
+		}
+		count := e.count
 		if count == 0 {
 			count = total
+		}
+		c.kinds["v"] = true
+		if len(e.hist) > 0 {
+			c.kinds["h"] = true
+			h.Stat("ev.histogram", 1)
+		} else {
+			h.Stat("ev.value", 1)
+		}
+		if e.count != 0 && e.count != total {
+			h.Stat("ev.value.rescaled", 1)
+		}
+		var mv *data_model.MultiValue
+		if count > 0 {
+			mv = target(count)
+			mv.ApplyValues(c.rng, e.hist, e.vals, count, total, host, agentCompression, c.hasPct)
+		}
+		vs := make([]string, len(e.vals))
+		for i, v := range e.vals {
+			vs[i] = q(v)
+		}
+		hs := make([]string, len(e.hist))
+		for i, kv := range e.hist {
+			hs[i] = q(kv[0]) + ":" + q(kv[1])
+		}
+		c.finishEvent(mv, key, fmt.Sprintf("ev v %s %s %s %s %s", tagStr(top), q(e.count), verifx.List(vs), verifx.List(hs), tagStr(host)), pickOf, b2s(c.hasPct))
+	case 'p': // Shard.AddValueCounterHost (built-in metrics)
+		c.kinds["v"] = true
+		h.Stat("ev.value1", 1)
+		mv := target(e.count)
+		if c.hasPct {
+			mv.AddValueCounterHostPercentile(c.rng, e.value, e.count, host, agentCompression)
+		} else {
+			mv.AddValueCounterHost(c.rng, e.value, e.count, host)
+		}
+		c.finishEvent(mv, key, fmt.Sprintf("ev p %s %s %s %s", tagStr(top), q(e.value), q(e.count), tagStr(host)), pickOf, b2s(c.hasPct))
+	case 'u': // Shard.ApplyUnique
+		var hs []string
+		for _, x := range e.hashes {
+			hs = append(hs, fmt.Sprintf("%s:%d", q(float64(x)), data_model.VerifC02Hash32(uint64(x))))
+		}
+		count := e.count
+		if count == 0 {
+			count = float64(len(e.hashes))
 		}
 		c.kinds["u"] = true
 		h.Stat("ev.unique", 1)
 		var mv *data_model.MultiValue
 		if count > 0 {
 			mv = target(count)
-			mv.ApplyUnique(c.rng, hashes, count, host)
+			mv.ApplyUnique(c.rng, e.hashes, count, host)
 		}
-		c.finishEvent(mv, key, fmt.Sprintf("ev u %s %s %s %s", tagStr(top), q(opCount), verifx.List(hs), tagStr(host)), pickOf, "")
+		c.finishEvent(mv, key, fmt.Sprintf("ev u %s %s %s %s", tagStr(top), q(e.count), verifx.List(hs), tagStr(host)), pickOf, "")
 	}
 }
 
@@ -386,14 +418,11 @@ func noMergeSafe(means, ws []float64, compression float64) bool {
 
 // ---------------------------------------------------------------- one case
 
-func runCase(h *verifx.H, r *verifx.Rng, sh *agent.VerifC02Shard) {
-	c := &caseCtx{h: h, r: r, rng: rand.New(r.U64()), kinds: map[string]bool{}}
-	c.hasPct = r.Chance(2, 5)
-	noSample := r.Chance(3, 4)
-	meta := &format.MetricMetaValue{MetricID: int32(100 + r.Intn(1000)), NoSampleAgent: noSample, HasPercentiles: c.hasPct,
-		EffectiveResolution: 1, EffectiveWeight: 1}
-	// ---- key
-	key := data_model.Key{Metric: meta.MetricID}
+func genCase(h *verifx.H, r *verifx.Rng) caseSpec {
+	sp := caseSpec{}
+	sp.hasPct = r.Chance(2, 5)
+	sp.noSample = r.Chance(3, 4)
+	key := data_model.Key{Metric: int32(100 + r.Intn(1000))}
 	tsKind := r.Pick(10, 4, 2, 2, 1, 1, 1, 1)
 	switch tsKind {
 	case 0:
@@ -424,16 +453,49 @@ func runCase(h *verifx.H, r *verifx.Rng, sh *agent.VerifC02Shard) {
 		idx := []int{0, 1, 3, 16, 46, 47}[r.Intn(6)]
 		key.STags[idx] = []string{"a", "bc", "x1", ""}[r.Intn(4)]
 	}
+	sp.key = key
+	base := float64(r.Range(-5, 12))
+	nev := r.Range(1, 6)
+	for i := 0; i < nev; i++ {
+		sp.events = append(sp.events, genEvent(r, base))
+	}
+	sp.sf = sfPool[r.Intn(len(sfPool))]
+	sp.aggHost = []tag{{I: 1000}, {I: 1000}, {S: "agenthost"}}[r.Intn(3)]
+	return sp
+}
+
+// corpus: minimised past failures (run first by checks/C02.py with -mode=corpus)
+func corpus() []caseSpec {
+	k := func(metric int32) data_model.Key { return data_model.Key{Metric: metric, Timestamp: bucketTs} }
+	return []caseSpec{
+		// F1: one counter-only event + one value event 7: compact form dropped the sum, aggregator derived 7*2
+		{key: k(101), noSample: true, sf: 1, aggHost: tag{I: 1000}, events: []evSpec{{kind: 'c', count: 1}, {kind: 'v', vals: []float64{7}}}},
+		// F1 with a sample factor and inside a string-top entry
+		{key: k(102), noSample: true, sf: 3, aggHost: tag{I: 1000}, events: []evSpec{{kind: 'v', top: tag{S: "x"}, vals: []float64{5, 5}}, {kind: 'c', top: tag{S: "x"}, count: 2}}},
+		// F1 through the counter of a value event that is larger than the number of values is NOT a defect (sum is rescaled): stays compact
+		{key: k(103), noSample: true, sf: 2, aggHost: tag{I: 1000}, events: []evSpec{{kind: 'v', vals: []float64{7}, count: 4}}},
+		// F12: min value without host tag, max value with host tag 9: min host (and counter host) arrived as 9
+		{key: k(104), noSample: true, sf: 1, aggHost: tag{I: 1000}, events: []evSpec{{kind: 'v', vals: []float64{3}}, {kind: 'v', vals: []float64{5}, host: tag{I: 9}}}},
+		// F12 with a string host and the sampler path (NoSampleAgent = false)
+		{key: k(105), noSample: false, sf: 1, aggHost: tag{S: "agenthost"}, events: []evSpec{{kind: 'v', vals: []float64{5}, host: tag{S: "hosta"}}, {kind: 'c', count: 1}, {kind: 'v', vals: []float64{3}}}},
+	}
+}
+
+func runCase(h *verifx.H, r *verifx.Rng, sh *agent.VerifC02Shard, sp caseSpec) {
+	c := &caseCtx{h: h, rng: rand.New(r.U64()), kinds: map[string]bool{}}
+	c.hasPct = sp.hasPct
+	noSample := sp.noSample
+	key := sp.key
+	meta := &format.MetricMetaValue{MetricID: key.Metric, NoSampleAgent: noSample, HasPercentiles: c.hasPct,
+		EffectiveResolution: 1, EffectiveWeight: 1}
 	h.Op("key %d %d %d %s %s", key.Metric, key.Timestamp, bucketTs, sparseInts(key.Tags[:]), sparseStrs(key.STags[:]))
 	h.Obs("key %s", keyStr(&key))
 	bucket := &data_model.MetricsBucket{Time: bucketTs}
 	item, _ := bucket.GetOrCreateMultiItem(&key, meta, nil)
 	c.item = item
 	// ---- events
-	base := float64(r.Range(-5, 12))
-	nev := r.Range(1, 6)
-	for i := 0; i < nev; i++ {
-		c.applyEvent(base)
+	for _, e := range sp.events {
+		c.applyEvent(e)
 	}
 	// ---- snapshot for the oracle, observed centroids for the model
 	tailSnap := takeSnap(&item.Tail)
@@ -454,7 +516,7 @@ func runCase(h *verifx.H, r *verifx.Rng, sh *agent.VerifC02Shard) {
 		}
 	}
 	// ---- send: the real sampleBucket (keepF), real TL bytes
-	sf := sfPool[r.Intn(len(sfPool))]
+	sf := sp.sf
 	if !noSample {
 		sf = 1 // decided by the sampler; read back below
 	}
@@ -529,7 +591,7 @@ func runCase(h *verifx.H, r *verifx.Rng, sh *agent.VerifC02Shard) {
 		h.Stat("agg.digest-by-weight-only", 1)
 	}
 	// ---- aggregator: KeyFromStatshouseMultiItem + Skeys loop of handleSendSourceBucket (no mapping known) + MergeWithTLMultiItem
-	aggHost := []tag{{I: 1000}, {I: 1000}, {S: "agenthost"}}[r.Intn(3)]
+	aggHost := sp.aggHost
 	h.Op("merge %s %s", tagStr(aggHost), b2s(cmpc))
 	k, warn := data_model.KeyFromStatshouseMultiItem(it, bucketTs)
 	for i, s := range it.Skeys {
@@ -710,7 +772,13 @@ func main() {
 				h.Obs("panic %s", strings.ReplaceAll(fmt.Sprint(p), "\n", " "))
 			}
 		}()
-		runCase(h, r, sh)
+		if h.Mode == "corpus" {
+			if cs := corpus(); i < len(cs) {
+				runCase(h, r, sh, cs[i])
+			}
+			return
+		}
+		runCase(h, r, sh, genCase(h, r))
 	})
 	h.Done()
 }
